@@ -406,6 +406,12 @@ func (s *Store) Demote() {
 
 // Handoff instructs store to send its lease to a connected replica.
 func (s *Store) Handoff(ctx context.Context, nodeID uint64) error {
+	// Node ID zero is not a node: the backup stream and streams without an ID
+	// header subscribe under it and none of them can take over a lease.
+	if nodeID == 0 {
+		return fmt.Errorf("target node id required")
+	}
+
 	var lease Lease
 	if err := func() error {
 		s.mu.Lock()
